@@ -1,0 +1,141 @@
+//go:build verif
+
+package configuration
+
+// Contracts for package configuration, read by /verif/govc (comment-only file, compiled only with -tags verif).
+// C11: what `config validate` accepts can be run. The predicates below restate, in terms of the decoded
+// configuration, what instantiating and evaluating the entries needs (the preconditions of the Evaluate
+// contracts in package curves, the well-formedness of fans and control loops).
+
+//@ extern func golang.org/x/exp/slices.Contains[[]string,string](s []string, v string) (b bool)
+//@   effectfree
+//@   ensures b == (exists j int :: 0 <= j && j < len(s) && s[j] == v)
+//@   trusted "slices.Contains"
+//@ extern func strings.Join(elems []string, sep string) (r string)
+//@   effectfree
+//@   trusted "pure string function"
+//@ extern func github.com/looplab/tarjan.Connections(graph map[interface{}][]interface{}) (output [][]interface{})
+//@   effectfree
+//@   trusted "Tarjan SCC (library): result unconstrained here - the acyclicity half of C11 is not decided by contracts"
+
+//@ pure one3(a bool, b bool, c bool) bool = (a && !b && !c) || (!a && b && !c) || (!a && !b && c)
+//@ pure hasSensor(cfg *Configuration, id string) bool = exists k int :: 0 <= k && k < len(cfg.Sensors) && cfg.Sensors[k].ID == id
+//@ pure hasCurve(cfg *Configuration, id string) bool = exists k int :: 0 <= k && k < len(cfg.Curves) && cfg.Curves[k].ID == id
+//@ pure fnTypeOK(t string) bool = t == "sum" || t == "difference" || t == "delta" || t == "minimum" || t == "maximum" || t == "average"
+
+//@ pure sensorOK(cfg *Configuration, i int) bool = one3(cfg.Sensors[i].HwMon != nil, cfg.Sensors[i].File != nil, cfg.Sensors[i].Cmd != nil) && (cfg.Sensors[i].HwMon != nil ==> cfg.Sensors[i].HwMon.Index >= 1) && (forall j int :: 0 <= j && j < i ==> cfg.Sensors[j].ID != cfg.Sensors[i].ID)
+
+//@ func isSensorConfigInUse
+//@   modifies nothing
+//@   loop 1 "for _, curveConfig := range curves"
+//@     invariant -1 <= rangeindex
+
+//@ func validateSensors
+//@   props C11
+//@   requires config != nil
+//@   ensures[C11.sensors] result == nil ==> forall i int :: 0 <= i && i < len(config.Sensors) ==> sensorOK(config, i)
+//@   modifies nothing
+//@   loop 1 "for _, sensorConfig := range config.Sensors"
+//@     invariant -1 <= rangeindex && len(sensorIds) == rangeindex + 1 && (arrayOf(sensorIds) == 0 || arrayOf(sensorIds) >= old(W))
+//@     invariant forall j int :: 0 <= j && j <= rangeindex && j < len(config.Sensors) ==> sensorIds[j] == config.Sensors[j].ID && sensorOK(config, j)
+
+// ---- curves ------------------------------------------------------------------------------------------------
+//@ pure fnMembersOK(cfg *Configuration, i int) bool = forall m int :: 0 <= m && m < len(cfg.Curves[i].Function.Curves) ==> hasCurve(cfg, cfg.Curves[i].Function.Curves[m]) && cfg.Curves[i].Function.Curves[m] != cfg.Curves[i].ID
+//@ pure curveShapeOK(cfg *Configuration, i int) bool = one3(cfg.Curves[i].Linear != nil, cfg.Curves[i].PID != nil, cfg.Curves[i].Function != nil) && (forall j int :: 0 <= j && j < i ==> cfg.Curves[j].ID != cfg.Curves[i].ID)
+//@ pure curveRefsOK(cfg *Configuration, i int) bool = (cfg.Curves[i].Function != nil ==> fnTypeOK(cfg.Curves[i].Function.Type) && fnMembersOK(cfg, i)) && (cfg.Curves[i].Linear != nil ==> hasSensor(cfg, cfg.Curves[i].Linear.Sensor)) && (cfg.Curves[i].PID != nil ==> hasSensor(cfg, cfg.Curves[i].PID.Sensor))
+// what evaluating needs beyond resolvable references: a function curve aggregates at least one member
+// (values[0], division by the member count), a step curve has at least one step (last step is indexed)
+//@ pure curveEvaluable(cfg *Configuration, i int) bool = (cfg.Curves[i].Function != nil ==> len(cfg.Curves[i].Function.Curves) >= 1) && (cfg.Curves[i].Linear != nil && cfg.Curves[i].Linear.Steps != nil ==> len(cfg.Curves[i].Linear.Steps) >= 1)
+
+//@ func curveIdExists
+//@   ensures result == hasCurve(config, curveId)
+//@   requires config != nil
+//@   modifies nothing
+//@   loop 1 "for _, curve := range config.Curves"
+//@     invariant -1 <= rangeindex && forall k int :: 0 <= k && k <= rangeindex && k < len(config.Curves) ==> config.Curves[k].ID != curveId
+//@ func sensorIdExists
+//@   ensures result == hasSensor(config, sensorId)
+//@   requires config != nil
+//@   modifies nothing
+//@   loop 1 "for _, sensor := range config.Sensors"
+//@     invariant -1 <= rangeindex && forall k int :: 0 <= k && k <= rangeindex && k < len(config.Sensors) ==> config.Sensors[k].ID != sensorId
+//@ func github.com/markusressel/fan2go/internal/util.ContainsString
+//@   modifies nothing
+//@   loop 1 "for _, a := range s"
+//@     invariant -1 <= rangeindex
+//@ func isCurveConfigInUse
+//@   modifies nothing
+//@   loop 1 "for _, curveConfig := range curves"
+//@     invariant -1 <= rangeindex
+//@   loop 2 "for _, fanConfig := range fans"
+//@     invariant -1 <= rangeindex
+//@ func validateNoLoops
+//@   modifies nothing
+//@   loop 1 "for _, items := range output"
+//@     invariant -1 <= rangeindex
+
+//@ func validateCurves
+//@   props C11
+//@   heapclosed
+//@   requires config != nil
+//@   ensures[C11.curves.shape] result == nil ==> forall i int :: 0 <= i && i < len(config.Curves) ==> curveShapeOK(config, i)
+//@   ensures[C11.curves.refs] result == nil ==> forall i int :: 0 <= i && i < len(config.Curves) ==> curveRefsOK(config, i)
+//@   ensures[C11.curves.members] result == nil ==> forall i int :: 0 <= i && i < len(config.Curves) && config.Curves[i].Function != nil ==> len(config.Curves[i].Function.Curves) >= 1
+//@   ensures[C11.curves.steps] result == nil ==> forall i int :: 0 <= i && i < len(config.Curves) && config.Curves[i].Linear != nil && config.Curves[i].Linear.Steps != nil ==> len(config.Curves[i].Linear.Steps) >= 1
+//@   modifies nothing
+//@   loop 1 "for _, curveConfig := range config.Curves"
+//@     invariant -1 <= rangeindex#1 && len(curveIds) == rangeindex#1 + 1 && (arrayOf(curveIds) == 0 || arrayOf(curveIds) >= old(W)) && graph != nil && fresh(graph)
+//@     invariant forall j int :: 0 <= j && j <= rangeindex#1 && j < len(config.Curves) ==> curveIds[j] == config.Curves[j].ID
+//@     invariant[C11.curves.shape] forall j int :: 0 <= j && j <= rangeindex#1 && j < len(config.Curves) ==> curveShapeOK(config, j)
+//@     invariant[C11.curves.refs] forall j int :: 0 <= j && j <= rangeindex#1 && j < len(config.Curves) ==> curveRefsOK(config, j)
+//@     invariant[C11.curves.members] forall j int :: 0 <= j && j <= rangeindex#1 && j < len(config.Curves) && config.Curves[j].Function != nil ==> len(config.Curves[j].Function.Curves) >= 1
+//@     invariant[C11.curves.steps] forall j int :: 0 <= j && j <= rangeindex#1 && j < len(config.Curves) && config.Curves[j].Linear != nil && config.Curves[j].Linear.Steps != nil ==> len(config.Curves[j].Linear.Steps) >= 1
+//@   loop 2 "for _, curve := range curveConfig.Function.Curves"
+//@     invariant -1 <= rangeindex#2 && 0 <= rangeindex#1 && rangeindex#1 < len(config.Curves) && len(curveIds) == rangeindex#1 + 1 && (arrayOf(curveIds) == 0 || arrayOf(curveIds) >= old(W)) && graph != nil && fresh(graph) && (arrayOf(connections) == 0 || arrayOf(connections) >= old(W))
+//@     invariant curveConfig.Function == config.Curves[rangeindex#1].Function && curveConfig.Function != nil && curveConfig.ID == config.Curves[rangeindex#1].ID && fnTypeOK(curveConfig.Function.Type) && curveShapeOK(config, rangeindex#1)
+//@     invariant curveConfig.Linear == config.Curves[rangeindex#1].Linear && curveConfig.PID == config.Curves[rangeindex#1].PID
+//@     invariant forall m int :: 0 <= m && m <= rangeindex#2 && m < len(curveConfig.Function.Curves) ==> hasCurve(config, curveConfig.Function.Curves[m]) && curveConfig.Function.Curves[m] != curveConfig.ID
+//@     invariant forall j int :: 0 <= j && j < rangeindex#1 ==> curveIds[j] == config.Curves[j].ID
+//@     invariant[C11.curves.shape] forall j int :: 0 <= j && j < rangeindex#1 ==> curveShapeOK(config, j)
+//@     invariant[C11.curves.refs] forall j int :: 0 <= j && j < rangeindex#1 ==> curveRefsOK(config, j)
+//@     invariant curveIds[rangeindex#1] == config.Curves[rangeindex#1].ID
+//@     invariant[C11.curves.members] forall j int :: 0 <= j && j < rangeindex#1 && config.Curves[j].Function != nil ==> len(config.Curves[j].Function.Curves) >= 1
+//@     invariant[C11.curves.steps] forall j int :: 0 <= j && j < rangeindex#1 && config.Curves[j].Linear != nil && config.Curves[j].Linear.Steps != nil ==> len(config.Curves[j].Linear.Steps) >= 1
+
+// ---- fans --------------------------------------------------------------------------------------------------
+//@ pure fanShapeOK(cfg *Configuration, i int) bool = one3(cfg.Fans[i].HwMon != nil, cfg.Fans[i].File != nil, cfg.Fans[i].Cmd != nil) && (forall j int :: 0 <= j && j < i ==> cfg.Fans[j].ID != cfg.Fans[i].ID) && hasCurve(cfg, cfg.Fans[i].Curve)
+//@ pure fanBackendOK(cfg *Configuration, i int) bool = (cfg.Fans[i].Cmd != nil ==> cfg.Fans[i].Cmd.SetPwm != nil && cfg.Fans[i].Cmd.GetPwm != nil) && (cfg.Fans[i].HwMon != nil ==> (cfg.Fans[i].HwMon.Index >= 1) != (cfg.Fans[i].HwMon.RpmChannel >= 1))
+// a control loop can be built: with a controlAlgorithm block one of its two forms must be present (otherwise the
+// controller is created with a nil control loop and the first cycle dereferences it)
+//@ pure fanLoopOK(cfg *Configuration, i int) bool = cfg.Fans[i].ControlAlgorithm != nil && cfg.Fans[i].ControlLoop == nil ==> cfg.Fans[i].ControlAlgorithm.Direct != nil || cfg.Fans[i].ControlAlgorithm.Pid != nil
+
+//@ func validateFans
+//@   props C11
+//@   heapclosed
+//@   requires config != nil
+//@   ensures[C11.fans.shape] result == nil ==> forall i int :: 0 <= i && i < len(config.Fans) ==> fanShapeOK(config, i)
+//@   ensures[C11.fans.backend] result == nil ==> forall i int :: 0 <= i && i < len(config.Fans) ==> fanBackendOK(config, i)
+//@   ensures[C11.fans.loop] result == nil ==> forall i int :: 0 <= i && i < len(config.Fans) ==> fanLoopOK(config, i)
+//@   modifies nothing
+//@   loop 1 "for _, fanConfig := range config.Fans"
+//@     invariant -1 <= rangeindex && len(fanIds) == rangeindex + 1 && (arrayOf(fanIds) == 0 || arrayOf(fanIds) >= old(W))
+//@     invariant forall j int :: 0 <= j && j <= rangeindex && j < len(config.Fans) ==> fanIds[j] == config.Fans[j].ID
+//@     invariant[C11.fans.shape] forall j int :: 0 <= j && j <= rangeindex && j < len(config.Fans) ==> fanShapeOK(config, j)
+//@     invariant[C11.fans.backend] forall j int :: 0 <= j && j <= rangeindex && j < len(config.Fans) ==> fanBackendOK(config, j)
+//@     invariant[C11.fans.loop] forall j int :: 0 <= j && j <= rangeindex && j < len(config.Fans) ==> fanLoopOK(config, j)
+
+//@ func containsCmdFan
+//@   modifies nothing
+//@   loop 1 "for _, fanConfig := range CurrentConfig.Fans"
+//@     invariant -1 <= rangeindex
+//@ func containsCmdSensors
+//@   modifies nothing
+//@   loop 1 "for _, sensorConfig := range CurrentConfig.Sensors"
+//@     invariant -1 <= rangeindex
+
+//@ func validateConfig
+//@   props C11
+//@   requires config != nil
+//@   ensures[C11.accepted] result == nil ==> (forall i int :: 0 <= i && i < len(config.Sensors) ==> sensorOK(config, i)) && (forall i int :: 0 <= i && i < len(config.Curves) ==> curveShapeOK(config, i) && curveRefsOK(config, i)) && (forall i int :: 0 <= i && i < len(config.Fans) ==> fanShapeOK(config, i) && fanBackendOK(config, i))
+//@   ensures[C11.runnable] result == nil ==> (forall i int :: 0 <= i && i < len(config.Curves) ==> curveEvaluable(config, i)) && (forall i int :: 0 <= i && i < len(config.Fans) ==> fanLoopOK(config, i))
+//@   modifies nothing
